@@ -3,7 +3,8 @@
 (* sessions of CallStep / CallSignal on real CallableSchemas and logs, under   *)
 (* one lock (so the order is a real total order), one line per gate-visible    *)
 (* stage:                                                                      *)
-(*   {"ev":"reset","calls":[call..]}      a new session starts (fresh schema)  *)
+(*   {"ev":"reset","calls":[call..],"display":{step:shape}}  a new session     *)
+(*                                        starts (fresh schema, these displays) *)
 (*   {"ev":"begin","p":P}                 goroutine P enters its call          *)
 (*   {"ev":"init","p":P}                  the initializer runs in P's call     *)
 (*   {"ev":"initdone","p":P}              ... and returns                      *)
@@ -24,9 +25,11 @@ tvars == <<vars, l>>
 
 CallOf(c) == [kind |-> c.kind, step |-> c.step, run |-> c.run, sig |-> c.sig, input |-> c.input, beh |-> c.beh]
 CV(e) == [p \in Procs |-> CallOf(e.calls[p])]
+DV(e) == [s \in StepIds |-> e.display[s]]
 
-ResetTo(cv) ==
+ResetTo(cv, d) ==
     /\ call' = cv
+    /\ display' = d
     /\ pc' = [p \in Procs |-> "idle"]
     /\ arg' = [p \in Procs |-> "none"]
     /\ mutex' = [s \in StepIds |-> 0]
@@ -42,7 +45,7 @@ ClassMatches(logged, spec) ==
     ELSE logged = spec
 
 Logged(e) ==
-    IF e.ev = "reset" THEN AllDone /\ ResetTo(CV(e))
+    IF e.ev = "reset" THEN AllDone /\ ResetTo(CV(e), DV(e))
     ELSE LET p == e.p IN
          /\ p \in Procs
          /\ CASE e.ev = "begin"    -> Begin(p)
@@ -63,7 +66,7 @@ TInit ==
     /\ TLCSet(1, 0)
     /\ Len(Trace) >= 1
     /\ Trace[1].ev = "reset"
-    /\ InitWith(CV(Trace[1]))
+    /\ InitWith(CV(Trace[1]), DV(Trace[1]))
     /\ l = 2
 
 TNext ==
@@ -78,7 +81,7 @@ TSpec == TInit /\ [][TNext]_tvars
 \* high-water mark of consumed lines (register 1), evaluated as a state constraint
 HighWater == IF l > TLCGet(1) THEN TLCSet(1, l) ELSE TRUE
 
-Accepted == HandlerIffValid /\ ExactArgument /\ InitOncePerRun /\ ErrorClass
+Accepted == HandlerIffValid /\ ExactArgument /\ InitOncePerRun /\ ErrorClass /\ DisplayBlind
 
 Consumed == /\ PrintT(<<"C11HW", TLCGet(1), Len(Trace)>>)
             /\ TLCGet(1) = Len(Trace) + 1
